@@ -21,6 +21,7 @@ class Sym:
     def __init__(self, const=0.0, terms=None):
         self.c = float(const)
         self.t = {k: v for k, v in (terms or {}).items() if v != 0}
+        self.deps = frozenset()     # tainted parameters (see TFloat) this form was computed from
 
     @staticmethod
     def lift(x):
@@ -72,6 +73,34 @@ class Sym:
         if s.c or not parts:
             parts.insert(0, f"{s.c:g}")
         return " + ".join(parts)
+
+
+class TFloat(float):
+    """a concrete number that was computed from a tainted factory parameter (e.g. `voltage`): the value is one probe, `deps`
+    names the parameters it depends on"""
+
+    def __new__(cls, v, deps=()):
+        o = float.__new__(cls, v)
+        o.deps = frozenset(deps)
+        return o
+
+
+def deps_of(*xs):
+    d = frozenset()
+    for x in xs:
+        d |= getattr(x, "deps", frozenset())
+    return d
+
+
+def with_deps(v, deps):
+    if not deps:
+        return v
+    if isinstance(v, Sym):
+        v.deps = deps_of(v) | deps
+        return v
+    if isinstance(v, bool) or not isinstance(v, (int, float)):
+        return v
+    return TFloat(v, deps)
 
 
 class Cur:
@@ -247,6 +276,9 @@ class Evaluator:
             return l + r
         if isinstance(l, str) and isinstance(op, ast.Mod):
             return l % r
+        dp = deps_of(l, r)
+        if dp:
+            return with_deps(self.binop(op, _untaint(l), _untaint(r), node), dp)
         if isinstance(l, Sym) or isinstance(r, Sym):
             l, r = Sym.lift(l), Sym.lift(r)
         num = (int, float, Sym)
@@ -328,7 +360,7 @@ class Evaluator:
         if isinstance(e, ast.UnaryOp):
             v = self.ex(e.operand, env)
             if isinstance(e.op, ast.USub):
-                return v.scale(-1) if isinstance(v, Cur) else -v
+                return v.scale(-1) if isinstance(v, Cur) else with_deps(-_untaint(v), deps_of(v))
             if isinstance(e.op, ast.UAdd):
                 return v
             if isinstance(e.op, ast.Not):
@@ -452,12 +484,15 @@ class Evaluator:
                     v = simple[nm](*args, **kw)
                 except Exception:
                     self.fail(e, f"{nm}() fails at construction time")
+                if nm in ("int", "float", "abs", "min", "max", "sum"):
+                    flat = [y for x in args for y in (x if isinstance(x, (list, tuple)) else [x])]
+                    v = with_deps(v, deps_of(*flat))
                 return list(v) if nm in ("range", "enumerate", "zip", "reversed") else v
         if isinstance(f, tuple) and f[0] == "attr":
             obj, name = f[1], f[2]
             if obj == ("mathmod",):
                 if name == "sqrt" and len(args) == 1 and not isinstance(args[0], (Sym, Cur)):
-                    return math.sqrt(args[0])
+                    return with_deps(math.sqrt(args[0]), deps_of(args[0]))
                 self.fail(e, "math function outside the subset")
             if isinstance(obj, str) and name in ("format", "upper", "lower", "join", "zfill", "strip", "split"):
                 return getattr(obj, name)(*args, **kw)
@@ -483,6 +518,14 @@ class Evaluator:
                     return None
                 self.fail(e, f"network method {name} outside the subset")
         self.fail(e, "call outside the subset")
+
+
+def _untaint(x):
+    if isinstance(x, TFloat):
+        return float(x)
+    if isinstance(x, Sym) and x.deps:
+        return Sym(x.c, x.t)
+    return x
 
 
 def _load(t):
